@@ -345,3 +345,289 @@ Proof.
   split; [apply tag_covered_api; assumption|split; [apply conv_covered_api; assumption|
     split; [apply (merge_covered_api st); [exact TI|apply api_step_frame; exact Ha]|apply import_covered_api; assumption]]].
 Qed.
+
+(* ---------------------------------------------------------------- the core invariant under API actions *)
+Definition eqU1 (a b : N * tag) : Prop :=
+  fst a = fst b /\ t_def (snd a) = t_def (snd b) /\ t_live (snd a) = t_live (snd b) /\ t_u (snd a) = t_u (snd b) /\
+  t_m (snd a) = t_m (snd b).
+
+Lemma eqU_tu a b x : Forall2 eqU1 a b -> tu x b = tu x a.
+Proof.
+  induction 1 as [|[k t] [k' t'] ra rb (E1 & E2 & E3 & E4 & _) HR IH]; [reflexivity|]. simpl in *. subst k'.
+  rewrite !tu_cons, E3, E4, IH. reflexivity.
+Qed.
+
+Lemma closed_eqU nx a b : Forall2 eqU1 a b -> closed nx a -> closed nx b.
+Proof.
+  induction 1 as [|[k t] [k' t'] ra rb (E1 & E2 & E3 & E4 & _) HR IH]; [auto|]. simpl in *. intros (C1 & C2 & C3).
+  rewrite <- E2, <- E4. split; [|split; [|apply IH; exact C3]].
+  - intros x Hx id Hid Hm. rewrite (eqU_tu ra rb x HR) in Hm. apply (C1 x Hx id Hid Hm).
+  - intros x Hx Hne. rewrite (eqU_tu ra rb x HR) in Hne. apply (C2 x Hx Hne).
+Qed.
+
+Lemma eqU_grow nx a b : Forall2 eqU1 a b -> Forall2 (grow1 nx) a b.
+Proof.
+  induction 1 as [|x y ra rb (E1 & E2 & E3 & E4 & E5) HR IH]; constructor; [|exact IH].
+  unfold grow1, same1. repeat split; auto. intros id _ H. rewrite <- E4. exact H.
+Qed.
+
+Lemma eqU_tset n t t' ts : sorted ts -> tget n ts = Some t -> t_def t' = t_def t -> t_m t' = t_m t -> t_u t' = t_u t -> t_live t' = true ->
+  Forall2 eqU1 ts (tset n t' ts).
+Proof.
+  intros So Tn E1 E2 E3 E4. apply Forall2_tset; [intros; unfold eqU1; auto|].
+  intros k0 t0 I E. subst k0. destruct (tget_In _ _ _ Tn) as (In_n & Ln).
+  assert (t0 = t) as -> by (eapply sorted_unique; eassumption).
+  unfold eqU1; simpl. repeat split; congruence.
+Qed.
+
+(* only converter lists (and converter queues / caches) change *)
+Lemma tcore_convonly st st' :
+  Tcore st -> Forall2 eqU1 (tags st) (tags st') -> next st' = next st -> m_upd st' = m_upd st -> m_rst st' = m_rst st -> m_add st' = m_add st ->
+  jtag st' = jtag st -> convs st' = convs st -> jconv st' = jconv st -> idx st' = idx st -> jmerge st' = jmerge st -> jimp st' = jimp st ->
+  Tcore st'.
+Proof.
+  intros TC E N MU MR MA JT CV JC IX JM JI. pose proof TC as (A1 & A2 & A3 & A4 & A5 & A6 & A7 & A8 & A9 & A10 & A11 & A12).
+  apply (tcore_grow st st' TC N (eqU_grow _ _ _ E)); try assumption; try (rewrite ?MU, ?MR, ?MA; assumption).
+  - intros n t' I L. destruct (Forall2_In_r _ _ _ _ E I) as ([k t] & I0 & (E1 & E2 & E3 & E4 & _)). simpl in *. subst k.
+    rewrite <- E3 in L. rewrite <- E2, <- E4. exact (A3 n t I0 L).
+  - intros n t' I. destruct (Forall2_In_r _ _ _ _ E I) as ([k t] & I0 & (E1 & E2 & E3 & E4 & _)). simpl in *. subst k.
+    rewrite <- E4. exact (proj1 (A4 n t I0)).
+  - eapply closed_eqU; eassumption.
+  - intros j Hj. rewrite JC in Hj. exact Hj.
+Qed.
+
+Lemma detach_core st n c : Tcore st -> Tcore (detach st n c).
+Proof.
+  intros TC. pose proof TC as (So & _). unfold detach. destruct (tget n (tags st)) as [t|] eqn:Tn; [|exact TC].
+  match goal with |- context[if ?b then _ else _] => destruct b end;
+    (apply (tcore_convonly st); try reflexivity; [exact TC|simpl; apply (eqU_tset n t); auto]).
+Qed.
+
+Lemma attach_core st n c st' : attach st n c = Some st' -> Tcore st -> Tcore st'.
+Proof.
+  intros E TC. pose proof TC as (So & _). unfold attach in E. destruct (tget n (tags st)) as [t|] eqn:Tn; [|inversion E; subst; exact TC].
+  destruct (tag_has_conv c t); [inversion E; subst; exact TC|]. destruct (complex (t_def t)); [discriminate|]. inversion E; subst.
+  apply (tcore_convonly st); try reflexivity; [exact TC|simpl; apply (eqU_tset n t); auto].
+Qed.
+
+Lemma fold_core (f : state -> N -> state) l : (forall s c, Tcore s -> Tcore (f s c)) -> forall st, Tcore st -> Tcore (fold_left f l st).
+Proof. intros Hf. induction l; simpl; auto. Qed.
+
+Lemma attach_all_core cs : forall st n, Tcore st -> Tcore (fst (attach_all st n cs)).
+Proof.
+  induction cs as [|c cs IH]; simpl; intros st n TC; [exact TC|].
+  destruct (memN c (convs st)); [|exact TC]. destruct (attach st n c) eqn:E; [|exact TC].
+  apply IH. eapply attach_core; eassumption.
+Qed.
+
+Lemma tcore_tags st ts' :
+  Tcore st -> sorted ts' -> ranked ts' -> deadok ts' -> tags_bounded (next st) ts' -> closed (next st) ts' -> Tcore (set_tags st ts').
+Proof.
+  intros (A1 & A2 & A3 & A4 & A5 & A6 & A7 & A8 & A9 & A10 & A11 & A12) S R D B C.
+  split; [exact S|split; [exact R|split; [exact D|split; [exact B|split; [exact A5|split; [exact A6|split; [exact A7|
+    split; [exact C|split; [exact A9|split; [exact A10|split; [exact A11|exact A12]]]]]]]]]]].
+Qed.
+
+Lemma closed_tset_unref nx n t' ts :
+  closed nx ts -> (forall k t, In (k, t) ts -> ~ In n (d_refs (t_def t))) ->
+  (d_refs (t_def t') = [] \/ forall id, id < nx -> mem id (t_u t') = true) ->
+  closed nx (tset n t' ts).
+Proof.
+  intros C U Own. revert C U. unfold tset. induction ts as [|[k t] r IH]; intros C U; [exact I|].
+  simpl in C. destruct C as (C1 & C2 & C3).
+  assert (closed nx (map (fun kt => if fst kt =? n then (fst kt, t') else kt) r)) as CR.
+  { apply IH; [exact C3|intros k0 t0 I0; apply (U k0 t0); right; exact I0]. }
+  assert (forall x, x <> n -> tu x (map (fun kt => if fst kt =? n then (fst kt, t') else kt) r) = tu x r) as SAME.
+  { intros x NE. destruct (tu_tset n t' r x) as [E|(E & _)]; [exact E|congruence]. }
+  simpl. destruct (N.eqb_spec k n) as [->|NE]; simpl.
+  - split; [|split; [|exact CR]].
+    + intros x Hx id Hid _. destruct Own as [E|F]; [|apply F; exact Hid].
+      unfold d_refs in E. apply app_eq_nil in E. destruct E as (E & _). rewrite E in Hx. destruct Hx.
+    + intros x Hx _ id Hid. destruct Own as [E|F]; [|apply F; exact Hid].
+      unfold d_refs in E. apply app_eq_nil in E. destruct E as (_ & E). rewrite E in Hx. destruct Hx.
+  - assert (forall x, In x (d_refs (t_def t)) -> x <> n) as RN.
+    { intros x Hx ->. apply (U k t (or_introl eq_refl)). exact Hx. }
+    split; [|split; [|exact CR]].
+    + intros x Hx id Hid Hm. rewrite SAME in Hm; [|apply RN; apply in_or_app; left; exact Hx]. apply (C1 x Hx id Hid Hm).
+    + intros x Hx Hne. rewrite SAME in Hne; [|apply RN; apply in_or_app; right; exact Hx]. apply (C2 x Hx Hne).
+Qed.
+
+(* a slot that nobody references is (re)filled or emptied *)
+Lemma tcore_slot st n t' :
+  Tcore st ->
+  (forall k t, In (k, t) (tags st) -> t_live t = true -> ~ In n (d_refs (t_def t))) ->
+  (t_live t' = true -> (forall x, In x (d_refs (t_def t')) -> x < n /\ exists tx, tget x (tags st) = Some tx) /\ def_ok (t_def t')) ->
+  (t_live t' = false -> t_u t' = 0 /\ d_refs (t_def t') = [] /\ d_data (t_def t') = false) ->
+  bounded (next st) (t_u t') -> bounded (next st) (t_m t') ->
+  (d_refs (t_def t') = [] \/ forall id, id < next st -> mem id (t_u t') = true) ->
+  Tcore (set_tags st (tset n t' (tags st))).
+Proof.
+  intros TC U R Dd BU BM Own. pose proof TC as (So & Ra & Dk & TB & _ & _ & _ & CL & _).
+  apply tcore_tags; [exact TC|eapply sorted_fst; [apply tset_fst|exact So]| | |apply tb_tset; assumption|].
+  - intros k t I L. destruct (In_tset _ _ _ _ _ I) as [(-> & ->)|(NE & I0)].
+    + destruct (R L) as (Rf & Dok). split; [|exact Dok]. intros x Hx. destruct (Rf x Hx) as (Lx & tx & Tx).
+      split; [exact Lx|]. exists tx. rewrite tget_tset_ne; [exact Tx|lia].
+    + destruct (Ra k t I0 L) as (Rf & Dok). split; [|exact Dok]. intros x Hx. destruct (Rf x Hx) as (Lx & tx & Tx).
+      split; [exact Lx|]. exists tx. rewrite tget_tset_ne; [exact Tx|]. intros ->. apply (U k t I0 L). exact Hx.
+  - intros k t I L. destruct (In_tset _ _ _ _ _ I) as [(-> & ->)|(NE & I0)]; [exact (Dd L)|exact (Dk k t I0 L)].
+  - apply closed_tset_unref; [exact CL| |exact Own].
+    intros k t I Hin. destruct (t_live t) eqn:L; [exact (U k t I L Hin)|].
+    destruct (Dk k t I L) as (_ & E & _). rewrite E in Hin. destruct Hin.
+Qed.
+
+(* a live tag is replaced and uncertainty is inherited (UpdateTag query, mark add / del) *)
+Lemma tcore_replace_inherit st n ot t2 :
+  Tcore st -> tget n (tags st) = Some ot -> t_live t2 = true ->
+  bounded (next st) (t_u t2) -> bounded (next st) (t_m t2) ->
+  ((forall x, In x (d_refs (t_def t2)) -> x < n /\ exists tx, tget x (tags st) = Some tx) /\ def_ok (t_def t2)) ->
+  Tcore (set_tags st (inherit (all st) (tset n t2 (tags st)))).
+Proof.
+  intros TC Tn L2 BU BM R. pose proof TC as (So & Ra & Dk & TB & _ & _ & _ & CL & _).
+  destruct (tget_In _ _ _ Tn) as (In_n & Ln). set (ts1 := tset n t2 (tags st)).
+  pose proof (grow_inherit (next st) ts1) as GR. fold (all st) in GR.
+  assert (tags_bounded (next st) ts1) as TB1 by (apply tb_tset; assumption).
+  apply tcore_tags; [exact TC| | | | |apply closed_inherit].
+  - eapply sorted_same; [eapply grow_same; exact GR|]. eapply sorted_fst; [apply tset_fst|exact So].
+  - eapply ranked_same; [eapply grow_same; exact GR|].
+    intros k t I L. destruct (In_tset _ _ _ _ _ I) as [(-> & ->)|(NE & I0)].
+    + destruct R as (Rf & Dok). split; [|exact Dok]. intros x Hx. destruct (Rf x Hx) as (Lx & tx & Tx).
+      split; [exact Lx|]. exists tx. unfold ts1. rewrite tget_tset_ne; [exact Tx|lia].
+    + destruct (Ra k t I0 L) as (Rf & Dok). split; [|exact Dok]. intros x Hx. destruct (Rf x Hx) as (Lx & tx & Tx).
+      split; [exact Lx|]. destruct (N.eq_dec x n) as [->|NX].
+      * exists t2. apply tget_tset_eq; [exact L2|exists n, ot; split; [exact In_n|reflexivity]].
+      * exists tx. unfold ts1. rewrite tget_tset_ne; assumption.
+  - apply deadok_inherit, deadok_tset; assumption.
+  - eapply tb_from; [apply N.le_refl|exact TB1|exact GR|]. apply u_bounded_inherit. apply tags_u_bounded. exact TB1.
+Qed.
+
+(* clearing Uncertain of a reference-free tag (mark tags) *)
+Lemma tcore_clear st n x :
+  Tcore st -> tget n (tags st) = Some x -> d_refs (t_def x) = [] ->
+  Tcore (set_tags st (tset n (mkTag (t_def x) (t_m x) 0 (t_conv x)) (tags st))).
+Proof.
+  intros TC Tn RE. pose proof TC as (So & Ra & Dk & TB & _ & _ & _ & CL & _).
+  destruct (tget_In _ _ _ Tn) as (In_n & Ln). set (tp := mkTag (t_def x) (t_m x) 0 (t_conv x)).
+  assert (forall k t, In (k, t) (tags st) -> k = n -> t = x) as UQ by (intros k t I ->; eapply sorted_unique; eassumption).
+  assert (Forall2 same1 (tags st) (tset n tp (tags st))) as SM.
+  { apply Forall2_tset; [intros; repeat split|]. intros k t I E. rewrite (UQ k t I E). unfold same1; simpl. auto. }
+  apply tcore_tags; [exact TC|eapply sorted_same; eassumption|eapply ranked_same; eassumption|apply deadok_tset; [reflexivity|exact Dk]| |].
+  - apply tb_tset; [exact TB|apply bounded_0|exact (proj2 (TB n x In_n))].
+  - apply closed_tset_zero; try assumption; try reflexivity.
+    + intros pre t r _ y Hy. simpl in Hy. rewrite RE in Hy. destruct Hy.
+    + intros k t I E. rewrite (UQ k t I E). reflexivity.
+Qed.
+
+Lemma maxl_ge l : forall a i, In i l -> i <= fold_left N.max l a.
+Proof.
+  induction l as [|x l IH]; simpl; intros a i []; [subst|apply IH; assumption].
+  assert (forall b, b <= fold_left N.max l b) as G.
+  { clear. induction l as [|y l IH]; simpl; intros b; [lia|]. specialize (IH (N.max b y)). lia. }
+  specialize (G (N.max a i)). lia.
+Qed.
+
+Lemma fold_add1_mem l : forall acc i, mem i (fold_left (fun a s => add1 s a) l acc) = true -> mem i acc = true \/ In i l.
+Proof.
+  induction l as [|x l IH]; simpl; intros acc i H; [left; exact H|].
+  apply IH in H. destruct H as [H|H]; [|right; right; exact H].
+  rewrite mem_add1 in H. apply orb_true_iff in H. destruct H as [H|H]; [left; exact H|right; left; apply N.eqb_eq in H; congruence].
+Qed.
+
+Lemma idset_bounded nx (f : N -> bool) ids : maxl ids < nx -> bounded nx (fold_left (fun a s => add1 s a) (filter f ids) 0).
+Proof.
+  intros M i Hi. apply fold_add1_mem in Hi. destruct Hi as [Hi|Hi]; [rewrite mem_0 in Hi; discriminate|].
+  apply filter_In in Hi. destruct Hi as (Hi & _). pose proof (maxl_ge ids 0 i Hi). unfold maxl in M. lia.
+Qed.
+
+Lemma diff_bounded nx a b : bounded nx a -> bounded nx (diff a b).
+Proof. intros A i H. rewrite mem_diff in H. apply andb_true_iff in H. apply A. exact (proj1 H). Qed.
+
+Theorem tcore_api k p a st : api_action a -> api_ok st a -> Tcore st -> Tcore (step k p a st).
+Proof.
+  intros Ha Hok TC. pose proof TC as (So & Ra & Dk & TB & _).
+  destruct a; try (destruct Ha; fail); simpl.
+  - (* AImport *) destruct files; [exact TC|]. match goal with |- context[if ?b then _ else _] => destruct b end;
+      (apply (tcore_frame st); try reflexivity; [|exact TC]; intros nn rr E; simpl in E; try discriminate; exact E).
+  - (* AAddTag *) destruct (tget n (tags st)) eqn:Tn; [exact TC|]. destruct (refs_ok n d (tags st)) eqn:RO; [|exact TC].
+    destruct Hok as (Dok & Mk). pose proof (refs_ok_spec _ _ _ RO) as RS.
+    assert (forall k0 t0, In (k0, t0) (tags st) -> t_live t0 = true -> ~ In n (d_refs (t_def t0))) as U.
+    { intros k0 t0 I L Hin. destruct (Ra k0 t0 I L) as (Rf & _). destruct (Rf n Hin) as (_ & tx & Tx). congruence. }
+    destruct (d_mark d) eqn:DM.
+    + destruct (Mk eq_refl) as (RE & BI). apply tcore_slot; try assumption; simpl; try discriminate.
+      all: try (intros _; split; assumption). all: try (left; exact RE).
+    + apply tcore_start_tagging. apply tcore_slot; try assumption; simpl; try discriminate.
+      all: try (intros _; split; assumption). all: try apply ones_bounded.
+      all: try (right; intros id Hid; apply mem_ones; exact Hid).
+  - (* ADelTag *) destruct (tget n (tags st)) as [t|] eqn:Tn; [|exact TC].
+    destruct (referenced n (tags st)) eqn:RF; [exact TC|].
+    set (st1 := fold_left (fun s c => detach s n c) (t_conv t) st).
+    assert (Tcore st1) as TC1 by (apply fold_core; [intros; apply detach_core; assumption|exact TC]).
+    unfold tdel. apply tcore_slot; try assumption; simpl; try discriminate.
+    1: { intros k0 t0 I L Hin. destruct (fold_detach_defs _ _ _ _ _ I) as (t1 & I1 & D1 & L1).
+         apply (referenced_false n (tags st) RF k0 t1 I1); [congruence|rewrite D1; exact Hin]. }
+    all: try (intros _; repeat split). all: try (left; reflexivity).
+  - (* AQuery *) destruct (tget n (tags st)) as [t|] eqn:Tn; [|exact TC].
+    destruct (refs_ok n d (tags st)) eqn:RO; [|exact TC].
+    apply tcore_start_converter, tcore_start_tagging.
+    apply (tcore_replace_inherit st n t); try assumption; simpl; try reflexivity.
+    + apply ones_bounded.
+    + apply bounded_0.
+    + split; [apply refs_ok_spec; exact RO|exact Hok].
+  - (* AMarkAdd *) destruct (tget n (tags st)) as [t|] eqn:Tn; [|exact TC]. destruct ids as [|i0 ids]; [exact TC|].
+    destruct (N.leb_spec (next st) (maxl (i0 :: ids))) as [|LT]; [exact TC|].
+    pose proof (Hok t Tn) as RE. destruct (tget_In _ _ _ Tn) as (In_n & Ln). destruct (Ra n t In_n Ln) as (Rf & Dok).
+    destruct (TB n t In_n) as (BU & BM).
+    set (new := filter (fun s => negb (mem s (t_m t))) (i0 :: ids)).
+    set (newset := fold_left (fun a s => add1 s a) new 0).
+    assert (bounded (next st) newset) as BN by (apply idset_bounded; exact LT).
+    set (d' := match new with [] => t_def t | _ :: _ => with_def_id (t_def t) did end).
+    assert (d_refs d' = d_refs (t_def t) /\ def_ok d') as (RD & DD).
+    { unfold d'. destruct new; [split; [reflexivity|exact Dok]|]. destruct (with_def_id_refs (t_def t) did). split; auto. }
+    set (t' := mkTag d' (union (t_m t) newset) (union (t_u t) newset) (t_conv t)).
+    set (st1 := queue_matches st (t_conv t) newset).
+    assert (Tcore st1) as TC1 by (apply (tcore_frame st); try reflexivity; [intros nn rr E; exact E|exact TC]).
+    assert (Tcore (set_tags st1 (inherit (all st1) (tset n t' (tags st1))))) as TC2.
+    { apply (tcore_replace_inherit st1 n t); try assumption; simpl; try reflexivity; try (apply union_bounded; assumption).
+      rewrite RD. split; assumption. }
+    apply tcore_start_converter, tcore_start_tagging. change (all st) with (all st1).
+    set (ts1 := inherit (all st1) (tset n t' (tags st1))) in *.
+    assert (exists x, tget n ts1 = Some x /\ t_def x = d') as (x & Tx & Dx).
+    { assert (tget n (tset n t' (tags st1)) = Some t') as T1 by (apply tget_tset_eq; [reflexivity|exists n, t; split; [exact In_n|reflexivity]]).
+      destruct (grow_tget (next st1) _ _ n t' (grow_inherit (next st1) (tset n t' (tags st1))) T1) as (x & Tx & Dx & _).
+      exists x. split; [exact Tx|exact Dx]. }
+    match goal with |- context[tget n ?T] => replace (tget n T) with (Some x) by (symmetry; exact Tx) end.
+    assert (d_refs (t_def x) = []) as RX by (rewrite Dx, RD; exact RE).
+    exact (tcore_clear (set_tags st1 ts1) n x TC2 Tx RX).
+  - (* AMarkDel *) destruct (tget n (tags st)) as [t|] eqn:Tn; [|exact TC]. destruct ids as [|i0 ids]; [exact TC|].
+    destruct (N.leb_spec (next st) (maxl (i0 :: ids))) as [|LT]; [exact TC|].
+    pose proof (Hok t Tn) as RE. destruct (tget_In _ _ _ Tn) as (In_n & Ln). destruct (Ra n t In_n Ln) as (Rf & Dok).
+    destruct (TB n t In_n) as (BU & BM).
+    set (oldset := fold_left (fun a s => add1 s a) (filter (fun s => mem s (t_m t)) (i0 :: ids)) 0).
+    assert (bounded (next st) oldset) as BN by (apply idset_bounded; exact LT).
+    destruct (with_def_id_refs (t_def t) did) as (RD & DD).
+    set (t' := mkTag (with_def_id (t_def t) did) (diff (t_m t) oldset) (union (t_u t) oldset) (t_conv t)).
+    assert (Tcore (set_tags st (inherit (all st) (tset n t' (tags st))))) as TC2.
+    { apply (tcore_replace_inherit st n t); try assumption; simpl; try reflexivity.
+      - apply union_bounded; assumption.
+      - apply diff_bounded; assumption.
+      - rewrite RD. split; auto. }
+    apply tcore_start_converter, tcore_start_tagging.
+    set (ts1 := inherit (all st) (tset n t' (tags st))) in *.
+    assert (exists x, tget n ts1 = Some x /\ t_def x = with_def_id (t_def t) did) as (x & Tx & Dx).
+    { assert (tget n (tset n t' (tags st)) = Some t') as T1 by (apply tget_tset_eq; [reflexivity|exists n, t; split; [exact In_n|reflexivity]]).
+      destruct (grow_tget (next st) _ _ n t' (grow_inherit (next st) (tset n t' (tags st))) T1) as (x & Tx & Dx & _).
+      exists x. split; [exact Tx|exact Dx]. }
+    match goal with |- context[tget n ?T] => replace (tget n T) with (Some x) by (symmetry; exact Tx) end.
+    assert (d_refs (t_def x) = []) as RX by (rewrite Dx, RD; exact RE).
+    exact (tcore_clear (set_tags st ts1) n x TC2 Tx RX).
+  - (* ASetConv *) destruct (tget n (tags st)); [|exact TC].
+    match goal with |- context[if ?b then _ else _] => destruct b end; [|exact TC].
+    apply tcore_start_converter, attach_all_core. apply fold_core; [|exact TC].
+    intros s c Hs. destruct (memN c cs); [exact Hs|apply detach_core; exact Hs].
+  - (* AViewOpen *) apply (tcore_frame st); try reflexivity; [intros nn rr E; exact E|exact TC].
+  - (* AViewData *) destruct (find _ (views st)) as [[v0 sv]|]; [|exact TC]. destruct (cache st c i); [exact TC|].
+    destruct (negb (i <? next st) || negb (memN c (convs st))); [exact TC|].
+    destruct (kf_viewstore k || (sv i =? ver st i)).
+    + apply (tcore_frame st); try reflexivity; [intros nn rr E; exact E|exact TC].
+    + apply tcore_start_converter. apply (tcore_frame st); try reflexivity; [intros nn rr E; exact E|exact TC].
+  - (* AViewClose *) apply (tcore_frame st); try reflexivity; [intros nn rr E; exact E|exact TC].
+Qed.
